@@ -7,7 +7,8 @@ from ..model import FACE, M, NONE, POS, S, plen
 from . import c01, c11
 
 LEVEL = "model_checking"
-RULE = ("records = valid diff/interp/min/max/cumsum calls from C01's generator, each edited once into one of the "
+RULE = ("records = valid diff/interp/min/max/cumsum calls, and derivative/cumint/integrate/average calls on grids with "
+        "every metric registered, from C01's generator, each edited once into one of the "
         "ill-posed classes (axis the grid lacks, data without / with two dimensions of the axis, shift to the same "
         "position, position the axis lacks, unknown boundary or position word, non-numeric fill value), transform "
         "requests (periodic axis, non-monotonic conservative bins, conservative without outer), grid-ufunc calls with "
@@ -104,11 +105,24 @@ def edit_case(rng, c, kind):
     return c
 
 
+METRIC_OPS = ["derivative", "cumint", "integrate", "average"]
+NOSHIFT_EDITS = ["axis-missing", "no-dim", "two-dims"]
+
+
 def gen_cases(rng, n):
     out = []
     while len(out) < n:
-        base = c01.gen_case(rng, 0, ops=c01.OPS + ["cumsum"], maxelems=60)
-        kind = rng.choice(EDITS)
+        if rng.random() < 0.25:
+            # the metric-weighted operators, on a grid with a metric registered for every axis at every position
+            base = c01.gen_case(rng, 0, ops=METRIC_OPS, maxelems=60)
+            if base["op"] in ("integrate", "average"):
+                base["args"]["to"] = NONE
+                kind = rng.choice(NOSHIFT_EDITS)
+            else:
+                kind = rng.choice(EDITS)
+        else:
+            base = c01.gen_case(rng, 0, ops=c01.OPS + ["cumsum"], maxelems=60)
+            kind = rng.choice(EDITS)
         c = edit_case(rng, base, kind)
         if c is not None:
             out.append(c)
@@ -121,10 +135,23 @@ def execute(case):
     nm = model.Names(case["grid"].get("names"))
     rec = dict(case)
     try:
-        grid, ds = model.make_grid(case["grid"])
         a = case["args"]
+        if case["op"] in METRIC_OPS:
+            import numpy as np
+
+            ds = model.build_dataset(case["grid"])
+            for ax in case["grid"]["axes"]:
+                for p, d in ax["pos"]:
+                    ds["m_" + nm(d)] = (nm(d), np.full(plen(p, ax["n"]), 2.0))
+            grid, ds = model.make_grid(case["grid"], ds=ds)
+            for ax in case["grid"]["axes"]:
+                grid.set_metrics((nm(ax["name"]),), ["m_" + nm(d) for _, d in ax["pos"]])
+        else:
+            grid, ds = model.make_grid(case["grid"])
         da = model.make_array(a["data"], nm, None, name="v1")
         kw = model.call_kwargs(a, nm)
+        if case["op"] in ("integrate", "average"):
+            kw = {}
         if a.get("fill_bad"):
             kw["fill_value"] = "abc" if case["id"] % 2 else {x["name"]: "abc" for x in case["grid"]["axes"]}
         res = getattr(grid, case["op"])(da, [nm(x) for x in a["axis"]], **kw)
